@@ -755,9 +755,9 @@ func c02wSteps(letters []string) []c02wStep {
 // write half of a "write then flush" letter) gets one unbounded read of all fields, which also pins the survivor
 // of same-batch duplicates the way the first read of that prefix did.
 func c02wRunHistory(rep *kit.Report, parent string, c c02wCase, fullFrom int, stats bool) (end c02wEnd) {
-	// a directory of its own for every execution: the process keeps caches keyed by file path (chunk metas, pages);
-	// data file names restart from 00000001 in every fresh shard, and a path seen in an earlier history must not be
-	// seen again (in a deployed store a data file name is never reused)
+	// a directory of its own for every execution (in a deployed store a data file name is never reused; here file names
+	// restart from 00000001 in every fresh shard). Precaution only: the non-repeating stale reads once blamed on directory
+	// reuse were the WAL.Switch race (see staleWal below and notes/C02.md)
 	c02wDirSeq++
 	dir := filepath.Join(parent, fmt.Sprintf("h%07d", c02wDirSeq))
 	if kit.Getenv("VERIF_C02_REUSE_DIR", "") != "" { // development aid: one directory for all histories (comparison runs)
